@@ -78,4 +78,33 @@ def sqlJoin (L : LikeFn) (d : Dialect) (conds : SqlList) : List JRow → Option 
       | some k, some rest => some (if k == .tt then r :: rest else rest)
       | _, _ => none
 
+
+/-! ### many-to-many collection: `exists(c for c in s.cs if cond)` through a link table
+    `[NOT] EXISTS (SELECT 1 FROM link t, C c WHERE t.c = c.id AND s.id = t.s AND conds)` -/
+
+/-- a row of the link table (both references present) -/
+structure Link where
+  parent : Int
+  child : Int
+
+/-- a row of the child table with its primary key -/
+structure MChild where
+  id : Int
+  env : PEnv
+
+/-- the rows of `FROM link t, C c` joined on `t.c = c.id`, each seen as a child row whose reference is the link's parent column -/
+def joinedM (links : List Link) (children : List MChild) : List Child :=
+  links.flatMap (fun l => (children.filter (fun c => c.id == l.child)).map (fun c => (⟨some l.parent, c.env⟩ : Child)))
+
+def sqlExistsM (L : LikeFn) (d : Dialect) (pk : Int) (conds : SqlList) (links : List Link) (children : List MChild) : Option Bool :=
+  sqlExists L d pk conds (joinedM links children)
+def sqlNotExistsM (L : LikeFn) (d : Dialect) (pk : Int) (conds : SqlList) (links : List Link) (children : List MChild) : Option Bool :=
+  sqlNotExists L d pk conds (joinedM links children)
+
+/-- Python: the members of `s.cs` are the children linked to the parent -/
+def membersM (pk : Int) (links : List Link) (children : List MChild) : List MChild :=
+  children.filter (fun c => links.any (fun l => l.parent == pk && l.child == c.id))
+def pyExistsM (pk : Int) (links : List Link) (children : List MChild) (e : Expr) : Bool :=
+  (membersM pk links children).any (fun c => pySelected c.env e)
+
 end PonyVerif.Model.Q
